@@ -153,6 +153,25 @@ func c06CorpusScripts() map[string][]string {
 			"upd "+sg(A[0])+" "+S+" ? none",
 			recv(sg(A[0]), tssa, 2, 0),
 		),
+		// a registration that only ran on a DISCARDED context branch confers nothing (dropped dry run, failed multi-step
+		// execution, a real MsgSubmitProposal with an empty deposit that never passes); a committed one does
+		"discarded-registration": append(append([]string{}, head...),
+			"mkclient "+tssa+" tss "+hxs(A[1].lower),
+			reg(A[0].lower, []string{c06S}, []string{"addr-committed"}),
+			"regdry drop 1 "+hxs(A[2].lower)+" 1 "+S+" 1 "+hxs("dry-only-address"),
+			"q "+S+" "+hxs(A[2].lower)+" "+hxs("DRY-ONLY-ADDRESS"),
+			"upd "+sg(A[2])+" "+S+" ? none",
+			recv(sg(A[2]), S, 1, 1),
+			"regdry gov 1 "+hxs(A[1].lower)+" 1 "+tssa+" 1 "+hxs("dry-only-address"),
+			recv(sg(A[1]), tssa, 1, 0),
+			"regdry fail 1 "+hxs(A[0].lower)+" 1 "+hxs("nocl")+" 1 "+hxs("moved-dry"),
+			"q "+S+" "+hxs(A[0].lower)+" "+hxs("addr-committed"),
+			recv(sg(A[0]), S, 1, 1),
+			"upd "+sg(A[0])+" "+S+" ? none",
+			"regdry gov 1 "+hxs(A[3].lower)+" 2 "+S+" "+tssa+" 1 "+hxs("too-short"),
+			reg(A[2].lower, []string{c06S}, []string{"now-committed"}),
+			recv(sg(A[2]), S, 2, 1),
+		),
 		// the contract level: call data inside a relayed packet and through `execute`
 		"evm-nested-paths": {
 			"evmreset",
